@@ -1,3 +1,8 @@
 -- Root of the `RlboxModel` library.
+import RlboxModel.Generated
 import RlboxModel.IntConv
+import RlboxModel.Layout
+import RlboxModel.Ptr
+import RlboxModel.Lemmas.Arith
+import RlboxModel.Props.C05
 import RlboxModel.Props.C06
